@@ -23,7 +23,7 @@ DESIGN_REF = 'DESIGN.md section 3, C14'
 RULE = ('full product: every window (start, length 1..Lmax) of every contig of the reference (de-Bruijn word of order 3 '
         'over ACGTN + contig-end contigs + soft-masked contig) x every subset of the C/G positions of the window '
         'converted (for shape full additionally every single C/G position substituted by the non-conversion base / N) x '
-        'strand x taps_strand x fragment shape (single R1 safe/unsafe, fully overlapping pair, split pair, dove-tailed '
+        'strand x taps_strand x fragment shape (single R1 safe/unsafe, fully overlapping pair, split pair, pair with an uncovered gap, dove-tailed '
         'pair by 1 [thorough: by 2, pair with 1I in R1 and 1D in R2]) x class (TAPSNlaIIIMolecule with soft-clipped CATG, '
         'TAPSCHICMolecule); one real __finalise__ per case; non-trivial = the window holds a C or G; states = distinct cases')
 ASSUMPTIONS = [
@@ -223,6 +223,7 @@ def run_case(case):
     info['letters'] = ''.join(sorted(set(calls.values())))
     info['ncalls'] = len(calls)
     info['nabsent'] = sum(1 for p, e in expect.items() if e[0] == 'absent' and refseq[p].upper() in 'CG')
+    info['nrequired'] = sum(1 for e in expect.values() if e[0] == 'call' and e[2])
     seen = set()
     dedup = []
     for sig, d in viols:
@@ -253,6 +254,8 @@ def run_shard(shard, tier, acc):
                  outcome=f"{case['shape']}{'-unsafe' if case['unsafe'] else ''}:calls={info.get('letters') or '-'}")
         acc.count('calls_checked', info.get('ncalls', 0))
         acc.count('convertible_positions_that_must_stay_uncalled', info.get('nabsent', 0))
+        acc.count('calls_required_by_the_oracle', info.get('nrequired', 0))
+        acc.count('cases_with_a_required_call', 1 if info.get('nrequired', 0) else 0)
         for sig, d in viols:
             acc.violation(sig, case, d)
 
